@@ -1,0 +1,104 @@
+"""Fault points for an external verification harness.
+
+Everything in this module is inert unless the environment variable
+``LOKY_VERIF`` is set to ``1`` when loky is imported: ``ENABLED`` is then
+False and no call site does anything. When enabled, ``point(name)`` looks up
+a plan (``LOKY_VERIF_PLAN``: a JSON list of
+``{"point", "role", "nth", "action"}`` entries; ``LOKY_VERIF_DIR``: a scratch
+directory used for cross-process hit counters and pause tokens) and performs
+the requested action when the ``nth`` hit (counted across all processes of the
+tree) of that point in a process of that role happens:
+
+``kill:<sig>``, ``exit:<n>``, ``sleep:<ms>``, ``pause:<token>`` (creates
+``<token>.hit`` and blocks until ``<token>.go`` exists, at most 60 s) or
+``reap_descendant`` (only meaningful at ``kill_tree.listed``: kills and waits
+for the last listed descendant, as if it had just exited on its own).
+"""
+import os
+
+ENABLED = os.environ.get("LOKY_VERIF") == "1"
+_PLAN = None
+
+
+def _load():
+    global _PLAN
+    if _PLAN is None:
+        import json
+
+        try:
+            _PLAN = json.loads(os.environ.get("LOKY_VERIF_PLAN", "[]"))
+        except ValueError:
+            _PLAN = []
+    return _PLAN
+
+
+def _role():
+    import multiprocessing
+
+    name = multiprocessing.current_process().name
+    return "worker" if name.startswith("LokyProcess") else "parent"
+
+
+def _count(name):
+    """Number of this hit of `name`, counted across processes (1-based)."""
+    import fcntl
+
+    d = os.environ.get("LOKY_VERIF_DIR")
+    if not d:
+        return 1
+    with open(os.path.join(d, f"hits_{name}"), "a+") as fh:
+        fcntl.flock(fh, fcntl.LOCK_EX)
+        fh.seek(0)
+        n = len(fh.read().splitlines()) + 1
+        fh.write(f"{os.getpid()}\n")
+        fh.flush()
+    return n
+
+
+def point(name, **ctx):
+    plan = _load()
+    entries = [e for e in plan if e.get("point") == name]
+    if not entries:
+        return
+    role = _role()
+    entries = [e for e in entries if e.get("role", "any") in ("any", role)]
+    if not entries:
+        return
+    n = _count(f"{name}.{role}")
+    for e in entries:
+        if int(e.get("nth", 1)) != n:
+            continue
+        action = e.get("action", "")
+        kind, _, arg = action.partition(":")
+        if kind == "kill":
+            import signal
+            import time
+
+            os.kill(os.getpid(), int(arg or signal.SIGKILL))
+            time.sleep(60)
+        elif kind == "exit":
+            os._exit(int(arg or 0))
+        elif kind == "sleep":
+            import time
+
+            time.sleep(int(arg or 0) / 1000.0)
+        elif kind == "pause":
+            import time
+
+            d = os.environ.get("LOKY_VERIF_DIR", ".")
+            open(os.path.join(d, f"{arg}.hit"), "w").close()
+            t0 = time.time()
+            while (
+                not os.path.exists(os.path.join(d, f"{arg}.go"))
+                and time.time() - t0 < 60
+            ):
+                time.sleep(0.002)
+        elif kind == "reap_descendant":
+            victims = ctx.get("descendants") or []
+            if victims:
+                v = victims[-1]
+                try:
+                    v.kill()
+                    v.wait(10)
+                except Exception:
+                    pass
